@@ -11,6 +11,9 @@ static const char *describeCode(int code) {
 #define X(def, val, str) case val: return str;
 #define XE X
         LIST_OF_ERRORS
+#if USE_USER_ERROR_LIST
+        LIST_OF_USER_ERRORS
+#endif
 #undef X
 #undef XE
         default: return "Unknown error";
@@ -137,6 +140,9 @@ static std::string lazyCur(const void *) { return "sub=one\n" + replayOf(g_cur);
 static void runGrid(const Opt &o, Ev &ev) {
     armLazy(lazyCur, nullptr);
     std::vector<int> codes = {-113, -440, 0, 12345, -350, -32768, 32767};
+#if USE_USER_ERROR_LIST
+    codes = {102, 103, 104, -113, 12345};       // the application's own descriptions (one with quotes, one long with a quote near the limit)
+#endif
     uint64_t idx = 0;
     bool full = !o.quick();
     auto run = [&](const EC &c) -> bool {
@@ -193,7 +199,11 @@ static void runGrid(const Opt &o, Ev &ev) {
 
 static EC decode(Src &s) {
     EC c;
+#if USE_USER_ERROR_LIST
+    static const int codes[] = {102, 103, 104, 102, 103, 104, 102, 103, -32768, 32767, -222, -363};
+#else
     static const int codes[] = {-113, -440, 0, 12345, -350, -101, -310, 1, -32768, 32767, -222, -363};
+#endif
     c.code = s.prob(1, 3) ? s.irange(-32768, 32767) : codes[s.range(0, 11)];
     c.hasText = !s.prob(1, 8);
     size_t L = s.prob(1, 2) ? s.range(180, 300) : s.range(0, 400);
